@@ -1,23 +1,329 @@
 import PhyVerif.Model.C08
 import PhyVerif.Spec.C08
+import PhyVerif.Spec.C07
+import PhyVerif.Lemmas.C07
+import PhyVerif.Lemmas.C17
 /-! Helper lemmas and full proofs for C08. Statements: `Props/C08.lean`. -/
 namespace PhyVerif.C08.Lemmas
 open PhyVerif PhyVerif.C09 PhyVerif.C08
 
+/-! ### general list facts -/
+
+theorem getD_map_range {α : Type} (f : Nat → α) (n i : Nat) (d : α) (h : i < n) :
+    ((List.range n).map f).getD i d = f i := by
+  rw [List.getD_eq_getElem?_getD, List.getElem?_map, List.getElem?_range h]
+  rfl
+
+theorem mem_zip_iff (st sc : List Nat) (hlen : st.length = sc.length) (t c : Nat) :
+    (t, c) ∈ st.zip sc ↔ ∃ i, i < st.length ∧ st.getD i 0 = t ∧ sc.getD i 0 = c := by
+  rw [List.mem_iff_getElem?]
+  constructor
+  · rintro ⟨i, hi⟩
+    rw [List.getElem?_zip_eq_some] at hi
+    obtain ⟨h1, h2⟩ := hi
+    have hlt : i < st.length := by
+      rcases Nat.lt_or_ge i st.length with h | h
+      · exact h
+      · rw [List.getElem?_eq_none h] at h1; cases h1
+    exact ⟨i, hlt, by rw [List.getD_eq_getElem?_getD, h1]; rfl,
+      by rw [List.getD_eq_getElem?_getD, h2]; rfl⟩
+  · rintro ⟨i, hi, h1, h2⟩
+    refine ⟨i, ?_⟩
+    rw [List.getElem?_zip_eq_some]
+    have hi' : i < sc.length := hlen ▸ hi
+    rw [List.getD_eq_getElem?_getD, List.getElem?_eq_getElem hi] at h1
+    rw [List.getD_eq_getElem?_getD, List.getElem?_eq_getElem hi'] at h2
+    simp only [Option.getD_some] at h1 h2
+    exact ⟨by rw [List.getElem?_eq_getElem hi, h1], by rw [List.getElem?_eq_getElem hi', h2]⟩
+
+/-! ### mergeMap -/
+
+/-- the distinct cluster ids of the spikes of template `t` -/
+def mapping (st sc : List Nat) (t : Nat) : List Nat :=
+  Np.unique (((List.range st.length).filter fun i => st.getD i 0 == t).map
+    fun i => Int.ofNat (sc.getD i 0))
+
+theorem mergeMap_eq (st sc : List Nat) :
+    mergeMap st sc = (Np.unique (st.map Int.ofNat)).foldl (fun acc t =>
+      (mapping st sc t).foldl (fun a n => a.set n (a.getD n [] ++ [t])) acc)
+      (List.replicate (sc.foldl max 0 + 1) []) := rfl
+
+theorem mem_mapping (st sc : List Nat) (t c : Nat) :
+    c ∈ mapping st sc t ↔ ∃ i, i < st.length ∧ st.getD i 0 = t ∧ sc.getD i 0 = c := by
+  unfold mapping
+  rw [(PhyVerif.C07.Lemmas.unique_spec _).2 c]
+  simp only [List.mem_map, List.mem_filter, List.mem_range, beq_iff_eq, Int.ofNat_eq_natCast,
+    Int.natCast_inj]
+  constructor
+  · rintro ⟨i, ⟨h1, h2⟩, h3⟩; exact ⟨i, h1, h2, h3⟩
+  · rintro ⟨i, h1, h2, h3⟩; exact ⟨i, ⟨h1, h2⟩, h3⟩
+
+theorem mapping_nodup (st sc : List Nat) (t : Nat) : (mapping st sc t).Nodup :=
+  PhyVerif.C17.Lemmas.nodup_of_pairwise_lt _ (PhyVerif.C07.Lemmas.unique_spec _).1
+
+theorem inner_fold (t : Nat) (m : List Nat) (hm : m.Nodup) (a : List (List Nat))
+    (hb : ∀ n ∈ m, n < a.length) :
+    (m.foldl (fun a n => a.set n (a.getD n [] ++ [t])) a).length = a.length ∧
+    ∀ c, (m.foldl (fun a n => a.set n (a.getD n [] ++ [t])) a).getD c [] =
+      if c ∈ m then a.getD c [] ++ [t] else a.getD c [] := by
+  induction m generalizing a with
+  | nil => simp
+  | cons n ns ih =>
+    rw [List.nodup_cons] at hm
+    simp only [List.foldl_cons]
+    obtain ⟨h1, h2⟩ := ih hm.2 (a.set n (a.getD n [] ++ [t])) (by
+      intro k hk; rw [List.length_set]; exact hb k (List.mem_cons_of_mem _ hk))
+    refine ⟨by rw [h1, List.length_set], fun c => ?_⟩
+    rw [h2]
+    by_cases hcn : c = n
+    · subst hcn
+      have hlt : c < a.length := hb c (by simp)
+      simp [hm.1, List.getD_eq_getElem?_getD, List.getElem?_set_self hlt]
+    · have hne : n ≠ c := fun h => hcn h.symm
+      simp [hcn, List.getD_eq_getElem?_getD, List.getElem?_set_ne hne]
+
+theorem outer_fold (mp : Nat → List Nat) (nC : Nat) (L : List Nat)
+    (hnd : ∀ t ∈ L, (mp t).Nodup) (hb : ∀ t ∈ L, ∀ n ∈ mp t, n < nC)
+    (acc : List (List Nat)) (hacc : acc.length = nC) :
+    (L.foldl (fun acc t => (mp t).foldl (fun a n => a.set n (a.getD n [] ++ [t])) acc) acc).length
+      = nC ∧
+    ∀ c, (L.foldl (fun acc t => (mp t).foldl (fun a n => a.set n (a.getD n [] ++ [t])) acc)
+      acc).getD c [] = acc.getD c [] ++ L.filter (fun t => decide (c ∈ mp t)) := by
+  induction L generalizing acc with
+  | nil => simp [hacc]
+  | cons t ts ih =>
+    simp only [List.foldl_cons]
+    obtain ⟨i1, i2⟩ := inner_fold t (mp t) (hnd t (by simp)) acc (by
+      intro n hn; rw [hacc]; exact hb t (by simp) n hn)
+    obtain ⟨h1, h2⟩ := ih (fun u hu => hnd u (List.mem_cons_of_mem _ hu))
+      (fun u hu => hb u (List.mem_cons_of_mem _ hu)) _ (i1.trans hacc)
+    refine ⟨h1, fun c => ?_⟩
+    rw [h2, i2, List.filter_cons]
+    by_cases hc : c ∈ mp t <;> simp [hc]
+
+theorem mem_sc_le (sc : List Nat) (c : Nat) (h : c ∈ sc) : c ≤ sc.foldl max 0 :=
+  (PhyVerif.C07.Lemmas.le_foldl_max sc 0).2 c h
+
+theorem mem_templatesOf (st sc : List Nat) (c t : Nat) :
+    t ∈ templatesOf st sc c ↔ (t, c) ∈ st.zip sc := by
+  unfold templatesOf
+  rw [(PhyVerif.C07.Lemmas.unique_spec _).2 t]
+  simp only [List.mem_map, List.mem_filter, beq_iff_eq, Int.ofNat_eq_natCast, Int.natCast_inj]
+  constructor
+  · rintro ⟨⟨a, b⟩, ⟨h1, h2⟩, h3⟩
+    simp only at h2 h3; subst h2; subst h3; exact h1
+  · intro h; exact ⟨(t, c), ⟨h, rfl⟩, rfl⟩
+
+theorem templatesOf_pairwise (st sc : List Nat) (c : Nat) :
+    (templatesOf st sc c).Pairwise (· < ·) :=
+  (PhyVerif.C07.Lemmas.unique_spec _).1
+
+/-- the table for every index (also beyond the largest id) and its length -/
+theorem mergeMap_getD (st sc : List Nat) (hlen : st.length = sc.length) (c : Nat) :
+    (mergeMap st sc).getD c [] = templatesOf st sc c ∧
+    (mergeMap st sc).length = sc.foldl max 0 + 1 := by
+  rw [mergeMap_eq]
+  obtain ⟨h1, h2⟩ := outer_fold (mapping st sc) (sc.foldl max 0 + 1) (Np.unique (st.map Int.ofNat))
+    (fun t _ => mapping_nodup st sc t)
+    (fun t _ n hn => by
+      obtain ⟨i, hi, _, h3⟩ := (mem_mapping st sc t n).1 hn
+      have hi' : i < sc.length := hlen ▸ hi
+      have : n ∈ sc := by
+        rw [← h3, List.getD_eq_getElem?_getD, List.getElem?_eq_getElem hi']
+        exact List.getElem_mem hi'
+      have := mem_sc_le sc n this
+      omega)
+    (List.replicate (sc.foldl max 0 + 1) []) (by simp)
+  refine ⟨?_, h1⟩
+  rw [h2 c]
+  have hrep : (List.replicate (sc.foldl max 0 + 1) ([] : List Nat)).getD c [] = [] := by
+    rw [List.getD_eq_getElem?_getD, List.getElem?_replicate]; split <;> rfl
+  rw [hrep, List.nil_append]
+  apply PhyVerif.C17.Lemmas.eq_of_pairwise_lt_of_mem_iff
+  · exact List.Pairwise.filter _ (PhyVerif.C07.Lemmas.unique_spec _).1
+  · exact templatesOf_pairwise st sc c
+  · intro t
+    rw [mem_templatesOf, mem_zip_iff st sc hlen, List.mem_filter,
+      (PhyVerif.C07.Lemmas.unique_spec _).2 t, decide_eq_true_eq, mem_mapping]
+    constructor
+    · exact fun h => h.2
+    · rintro ⟨i, hi, h1, h2⟩
+      refine ⟨?_, i, hi, h1, h2⟩
+      show Int.ofNat t ∈ List.map Int.ofNat st
+      rw [List.mem_map]
+      refine ⟨t, ?_, rfl⟩
+      rw [← h1, List.getD_eq_getElem?_getD, List.getElem?_eq_getElem hi]
+      exact List.getElem_mem hi
+
 theorem mergeMap_spec (st sc : List Nat) (hlen : st.length = sc.length) (c : Nat)
     (hc : c ≤ sc.foldl max 0) :
     (mergeMap st sc).getD c [] = templatesOf st sc c ∧ (mergeMap st sc).length = sc.foldl max 0 + 1 := by
-  sorry
+  have _ := hc
+  exact mergeMap_getD st sc hlen c
 
 theorem nanIdx_spec (st sc : List Nat) (hlen : st.length = sc.length) (c : Nat) :
     c ∈ nanIdx (mergeMap st sc) ↔ (c ≤ sc.foldl max 0 ∧ c ∉ sc) := by
-  sorry
+  unfold nanIdx
+  obtain ⟨h1, h2⟩ := mergeMap_getD st sc hlen c
+  rw [List.mem_filter, List.mem_range, h1, h2, List.isEmpty_iff]
+  have key : templatesOf st sc c = [] ↔ c ∉ sc := by
+    rw [List.eq_nil_iff_forall_not_mem]
+    constructor
+    · intro h hc
+      obtain ⟨i, hi, hic⟩ := List.mem_iff_getElem.1 hc
+      have hi' : i < st.length := hlen ▸ hi
+      apply h (st.getD i 0)
+      rw [mem_templatesOf, mem_zip_iff st sc hlen]
+      refine ⟨i, hi', rfl, ?_⟩
+      rw [List.getD_eq_getElem?_getD, List.getElem?_eq_getElem hi]; exact hic
+    · intro h t ht
+      rw [mem_templatesOf] at ht
+      exact h (List.of_mem_zip ht).2
+  rw [key]
+  constructor
+  · rintro ⟨a, b⟩; exact ⟨by omega, b⟩
+  · rintro ⟨a, b⟩; exact ⟨by omega, b⟩
+
+/-! ### waveforms -/
 
 theorem single_template_unchanged (W : List Mat) (chans : List (List Nat)) (st sc : List Nat)
     (hlen : st.length = sc.length) (ns nc c t : Nat) (hc : c ≤ sc.foldl max 0)
     (h1 : templatesOf st sc c = [t]) :
     (clusterWaveforms W chans st sc ns nc).getD c [] = W.getD t [] := by
-  sorry
+  obtain ⟨hm1, hm2⟩ := mergeMap_getD st sc hlen c
+  have hclt : c < (mergeMap st sc).length := by omega
+  unfold clusterWaveforms
+  simp only []
+  rw [getD_map_range _ _ _ _ hclt, hm1, h1]
+
+theorem templateCounts_length (st sc : List Nat) (nt c : Nat) :
+    (templateCounts st sc nt c).length = nt := by simp [templateCounts]
+
+theorem templateCounts_getD (st sc : List Nat) (nt c t : Nat) (h : t < nt) :
+    (templateCounts st sc nt c).getD t 0 = countOf st sc t c := by
+  unfold templateCounts countOf
+  exact getD_map_range _ _ _ _ h
+
+theorem countOf_ne_zero_iff (st sc : List Nat) (t c : Nat) :
+    countOf st sc t c ≠ 0 ↔ (t, c) ∈ st.zip sc := by
+  unfold countOf
+  rw [Ne, List.length_eq_zero_iff, List.filter_eq_nil_iff]
+  constructor
+  · intro h
+    apply Classical.byContradiction
+    intro hn
+    apply h
+    rintro ⟨a, b⟩ hab
+    simp only [Bool.and_eq_true, beq_iff_eq, not_and]
+    rintro rfl rfl
+    exact hn hab
+  · intro h hn
+    exact hn (t, c) h (by simp)
+
+theorem ids_eq (st sc : List Nat) (n c : Nat) (hst : ∀ t ∈ st, t < n) :
+    ((List.range n).filter fun t => (templateCounts st sc n c).getD t 0 != 0) =
+      templatesOf st sc c := by
+  apply PhyVerif.C17.Lemmas.eq_of_pairwise_lt_of_mem_iff
+  · exact List.Pairwise.filter _ List.pairwise_lt_range
+  · exact templatesOf_pairwise st sc c
+  · intro t
+    rw [List.mem_filter, List.mem_range, mem_templatesOf, bne_iff_ne]
+    constructor
+    · rintro ⟨h1, h2⟩
+      rw [templateCounts_getD _ _ _ _ _ h1] at h2
+      exact (countOf_ne_zero_iff st sc t c).1 h2
+    · intro h
+      have h1 : t < n := hst t (List.of_mem_zip h).1
+      rw [templateCounts_getD _ _ _ _ _ h1]
+      exact ⟨h1, (countOf_ne_zero_iff st sc t c).2 h⟩
+
+theorem getD_map' {α β : Type} (f : α → β) (l : List α) (i : Nat) (d : α) :
+    (l.map f).getD i (f d) = f (l.getD i d) := by
+  rw [List.getD_eq_getElem?_getD, List.getD_eq_getElem?_getD, List.getElem?_map]
+  cases l[i]? <;> rfl
+
+theorem onChannels_getD (M : Mat) (chs : List Nat) (s ch : Nat) :
+    ((onChannels M chs).getD s []).getD ch 0 =
+      if chs.contains ch then (M.getD s []).getD ch 0 else 0 := by
+  have e : ∀ row : List Rat, ((List.range row.length).map fun c =>
+      if chs.contains c then row.getD c 0 else 0).getD ch 0 =
+      if chs.contains ch then row.getD ch 0 else 0 := by
+    intro row
+    rcases Nat.lt_or_ge ch row.length with h | h
+    · rw [getD_map_range _ _ _ _ h]
+    · rw [List.getD_eq_getElem?_getD, List.getElem?_eq_none (by simpa using h),
+        List.getD_eq_getElem?_getD (l := row), List.getElem?_eq_none h]
+      simp
+  unfold onChannels
+  have e2 : (M.map fun row : List Rat => (List.range row.length).map fun c =>
+      if chs.contains c then row.getD c 0 else 0).getD s [] =
+      (fun row : List Rat => (List.range row.length).map fun c =>
+      if chs.contains c then row.getD c 0 else 0) (M.getD s []) := getD_map' _ M s []
+  rw [e2]
+  exact e _
+
+theorem getD_map_idxOf {β : Type} (l : List Nat) (g : Nat → β) (x : Nat) (d : β) (h : x ∈ l) :
+    (l.map g).getD (l.idxOf x) d = g x := by
+  have hlt := List.idxOf_lt_length_iff.2 h
+  rw [List.getD_eq_getElem?_getD, List.getElem?_map, List.getElem?_eq_getElem hlt,
+    List.getElem_idxOf hlt]
+  rfl
+
+/-! ### argmax -/
+
+theorem foldl_max_mem (l : List Nat) (a : Nat) : l.foldl max a = a ∨ l.foldl max a ∈ l := by
+  induction l generalizing a with
+  | nil => simp
+  | cons x xs ih =>
+    simp only [List.foldl_cons, List.mem_cons]
+    rcases ih (max a x) with h | h
+    · rw [h]
+      rcases Nat.le_total a x with h' | h'
+      · right; left; omega
+      · left; omega
+    · exact Or.inr (Or.inr h)
+
+theorem foldl_max0_mem (l : List Nat) (hne : l ≠ []) : l.foldl max 0 ∈ l := by
+  rcases foldl_max_mem l 0 with h | h
+  · rw [h]
+    cases l with
+    | nil => exact absurd rfl hne
+    | cons x xs =>
+      have h2 := (PhyVerif.C07.Lemmas.le_foldl_max (x :: xs) 0).2 x (by simp)
+      rw [h] at h2
+      have : x = 0 := by omega
+      simp [this]
+  · exact h
+
+theorem argmaxNat_spec (l : List Nat) (hne : l ≠ []) :
+    argmaxNat l < l.length ∧ ∀ t, l.getD t 0 ≤ l.getD (argmaxNat l) 0 := by
+  unfold argmaxNat
+  have hm := foldl_max0_mem l hne
+  have hlt := List.idxOf_lt_length_iff.2 hm
+  refine ⟨hlt, fun t => ?_⟩
+  rw [List.getD_eq_getElem?_getD (i := List.idxOf _ _), List.getElem?_eq_getElem hlt,
+    List.getElem_idxOf hlt]
+  simp only [Option.getD_some]
+  rw [List.getD_eq_getElem?_getD]
+  rcases Nat.lt_or_ge t l.length with h | h
+  · rw [List.getElem?_eq_getElem h]
+    exact (PhyVerif.C07.Lemmas.le_foldl_max l 0).2 _ (List.getElem_mem h)
+  · rw [List.getElem?_eq_none h]; simp
+
+theorem dominant_has_max_count (st sc : List Nat) (nt c : Nat) (hnt : 0 < nt) :
+    let cnt := templateCounts st sc nt c
+    argmaxNat cnt < nt ∧ ∀ t, t < nt → cnt.getD t 0 ≤ cnt.getD (argmaxNat cnt) 0 := by
+  intro cnt
+  have hl : cnt.length = nt := templateCounts_length st sc nt c
+  have hne : cnt ≠ [] := by
+    intro h; rw [h] at hl; simp at hl; omega
+  obtain ⟨h1, h2⟩ := argmaxNat_spec cnt hne
+  exact ⟨hl ▸ h1, fun t _ => h2 t⟩
+
+theorem uncurated_identity (W : List Mat) (chans : List (List Nat)) (st : List Nat) (ns nc : Nat) :
+    loadClusters W chans st st ns nc = (W, W.length) := by
+  unfold loadClusters
+  simp
 
 theorem multi_template_weighted_mean (W : List Mat) (chans : List (List Nat)) (st sc : List Nat)
     (hlen : st.length = sc.length) (hst : ∀ t ∈ st, t < W.length) (ns nc c : Nat)
@@ -28,15 +334,57 @@ theorem multi_template_weighted_mean (W : List Mat) (chans : List (List Nat)) (s
     (((clusterWaveforms W chans st sc ns nc).getD c []).getD s []).getD ch 0 =
       if (chans.getD (argmaxNat (templateCounts st sc W.length c)) []).contains ch
       then weightedMean W chans st sc c s ch else 0 := by
-  sorry
-
-theorem dominant_has_max_count (st sc : List Nat) (nt c : Nat) (hnt : 0 < nt) :
-    let cnt := templateCounts st sc nt c
-    argmaxNat cnt < nt ∧ ∀ t, t < nt → cnt.getD t 0 ≤ cnt.getD (argmaxNat cnt) 0 := by
-  sorry
-
-theorem uncurated_identity (W : List Mat) (chans : List (List Nat)) (st : List Nat) (ns nc : Nat) :
-    loadClusters W chans st st ns nc = (W, W.length) := by
-  sorry
+  have _ := hch
+  have _ := hcl
+  obtain ⟨hm1, hm2⟩ := mergeMap_getD st sc hlen c
+  have hclt : c < (mergeMap st sc).length := by omega
+  unfold clusterWaveforms
+  simp only []
+  rw [getD_map_range _ _ _ _ hclt, hm1]
+  generalize hT : templatesOf st sc c = T at hmulti
+  rcases T with _ | ⟨a, _ | ⟨b, r⟩⟩
+  · simp at hmulti
+  · simp at hmulti
+  simp only []
+  rw [getD_map_range _ _ _ _ hs, getD_map_range _ _ _ _ hchn]
+  have hfst : (clusterMean W chans st sc c).fst =
+      chans.getD (argmaxNat (templateCounts st sc W.length c)) [] := rfl
+  rw [hfst]
+  split
+  · rename_i hcont
+    have hmem : ch ∈ chans.getD (argmaxNat (templateCounts st sc W.length c)) [] := by
+      simpa using hcont
+    have ha : a < W.length := by
+      have : a ∈ templatesOf st sc c := by rw [hT]; simp
+      rw [mem_templatesOf] at this
+      exact hst a (List.of_mem_zip this).1
+    have hbest : argmaxNat (templateCounts st sc W.length c) < W.length :=
+      (dominant_has_max_count st sc W.length c (by omega)).1
+    have hns : (W.getD (argmaxNat (templateCounts st sc W.length c)) []).length = ns := by
+      rw [List.getD_eq_getElem?_getD, List.getElem?_eq_getElem hbest]
+      exact (hW _ (List.getElem_mem hbest)).1
+    unfold clusterMean
+    simp only []
+    rw [hns, getD_map_range _ _ _ _ hs, getD_map_idxOf _ _ _ _ hmem, ids_eq st sc W.length c hst]
+    unfold weightedMean
+    simp only []
+    have hcnt : ∀ t ∈ templatesOf st sc c,
+        (templateCounts st sc W.length c).getD t 0 = countOf st sc t c := by
+      intro t ht
+      rw [mem_templatesOf] at ht
+      exact templateCounts_getD _ _ _ _ _ (hst t (List.of_mem_zip ht).1)
+    have e1 : (templatesOf st sc c).map (fun t => (templateCounts st sc W.length c).getD t 0) =
+        (templatesOf st sc c).map (fun t => countOf st sc t c) :=
+      List.map_congr_left hcnt
+    have e2 : (templatesOf st sc c).map (fun t =>
+          ((templateCounts st sc W.length c).getD t 0 : Rat) *
+            (List.getD (onChannels (W.getD t []) (chans.getD t [])) s []).getD ch 0) =
+        (templatesOf st sc c).map (fun t => (countOf st sc t c : Rat) *
+          (if (chans.getD t []).contains ch then ((W.getD t []).getD s []).getD ch 0 else 0)) := by
+      apply List.map_congr_left
+      intro t ht
+      rw [hcnt t ht, onChannels_getD]
+    rw [e1, e2]
+  · rfl
 
 end PhyVerif.C08.Lemmas
